@@ -3,6 +3,7 @@
 package main
 
 import (
+	"runtime/pprof"
 	"time"
 	"bufio"
 	"encoding/hex"
@@ -139,6 +140,11 @@ func main() {
 			lines++
 			tags["TIMEOUT"]++
 			finish()
+			// where every goroutine stands (which call did not return): kept next to the shard's output
+			if sf, err := os.Create(filepath.Join(*out, "timeout-stacks.txt")); err == nil {
+				pprof.Lookup("goroutine").WriteTo(sf, 2)
+				sf.Close()
+			}
 			fmt.Fprintf(os.Stderr, "case %s:%d did not return within %ds\n", prop, k, *caseTimeout)
 			os.Exit(4)
 		}
